@@ -129,7 +129,7 @@ def i_LDI(i_, fmap):
 
 
 def i_LDIR(i_, fmap):
-    i_ldi(i_, fmap)
+    i_LDI(i_, fmap)
     fmap[pf] = bit0
     if fmap[bc] != bit0:
         fmap[pc] = fmap[pc] - i_.length
@@ -147,7 +147,7 @@ def i_LDD(i_, fmap):
 
 
 def i_LDDR(i_, fmap):
-    i_ldd(i_, fmap)
+    i_LDD(i_, fmap)
     fmap[pf] = bit0
     if fmap[bc] != bit0:
         fmap[pc] = fmap[pc] - i_.length
@@ -168,7 +168,7 @@ def i_CPI(i_, fmap):
 
 
 def i_CPIR(i_, fmap):
-    i_cpi(i_, fmap)
+    i_CPI(i_, fmap)
     if fmap[zf] != 0 or fmap[pf] != 0:
         fmap[pc] = fmap[pc] - i_.length
 
@@ -188,7 +188,7 @@ def i_CPD(i_, fmap):
 
 
 def i_CPDR(i_, fmap):
-    i_cpd(i_, fmap)
+    i_CPD(i_, fmap)
     if fmap[zf] != 0 or fmap[pf] != 0:
         fmap[pc] = fmap[pc] - i_.length
 
